@@ -37,8 +37,12 @@
 #include <errno.h>
 #include <fcntl.h>
 #include <sys/wait.h>
+#include <sys/time.h>
 
 static hx_args A;
+// count this engine's violations: `--only` (replay) exits 1 when the case still fails
+static unsigned long n_my_viol;
+#define hx_violation(...) (++n_my_viol, hx_violation(__VA_ARGS__))
 static const char *PROP = "C15";
 
 typedef struct { unsigned id; const char *name; unsigned align; } filt;
@@ -658,12 +662,37 @@ static uint64_t count_converted(int f, const uint8_t *x, const uint8_t *y, size_
 // one case  //
 ///////////////
 
+// Safety net: a coder that stops returning would otherwise hold the shard
+// until the driver's wall-clock limit. 300 s of CPU for one case is far
+// beyond anything legitimate (the largest thorough case needs a few seconds).
+// No verdict is taken from it: exit code 2 = harness failure = inconclusive;
+// the driver resumes the shard after the case.
+#define CASE_CPU_LIMIT_S 300
+static volatile uint64_t current_case;
+
+static void on_cpu_limit(int sig)
+{
+	(void)sig;
+	char msg[128];
+	int n = snprintf(msg, sizeof(msg), "hx_bcj: case %" PRIu64 " used more than %d s of CPU (a coder does not return?)\n", current_case, CASE_CPU_LIMIT_S);
+	if (write(2, msg, (size_t)n) < 0) {}
+	_exit(2);
+}
+
+static void arm_cpu_limit(uint64_t idx)
+{
+	current_case = idx;
+	struct itimerval it = { { 0, 0 }, { CASE_CPU_LIMIT_S, 0 } };
+	setitimer(ITIMER_VIRTUAL, &it, NULL);
+}
+
 #define VIOL(keyfmt, ...) do { snprintf(key, sizeof(key), keyfmt, __VA_ARGS__); } while (0)
 
 static void run_case(uint64_t idx)
 {
 	vrng r; vrng_init(&r, A.seed, 0xC15, idx, 0);
 	hx_case_begin(idx);
+	arm_cpu_limit(idx);
 	int f = (int)(idx % F_COUNT);
 	const filt *F = &FILT[f];
 	bool null_options = false;
@@ -908,11 +937,12 @@ int main(int argc, char **argv)
 	hx_parse(argc, argv, &A);
 	if (A.prop[0]) PROP = A.prop;
 	helpers_start(A.extra);
+	signal(SIGVTALRM, on_cpu_limit);
 	for (int h = 0; h < nhelp; ++h) hx_note("referee: released liblzma %s", HELP[h].ver);
 	uint64_t idx = UINT64_MAX;
 	while (hx_next_case(&A, &idx)) run_case(idx);
 	helpers_stop();
 	streams_end();
 	hx_finish();
-	return 0;
+	return (A.only >= 0 && n_my_viol) ? 1 : 0;
 }
